@@ -1,5 +1,5 @@
 (** C08 - Cancel is final: canceled tasks never run or report again. *)
-From HQ Require Import Base.Prelude Cluster.Types Cluster.Core Cluster.Reactor Cluster.Worker Cluster.Server Cluster.Sys Cluster.Monitors Cluster.ProofsJob Cluster.ProofsCore Cluster.ProofsMore.
+From HQ Require Import Base.Prelude Cluster.Types Cluster.Core Cluster.Reactor Cluster.Worker Cluster.Server Cluster.Sys Cluster.Monitors Cluster.ProofsJob Cluster.ProofsCore Cluster.ProofsMore Cluster.ProofsTerminal.
 From Coq Require Import ZArith.
 Local Open Scope N_scope.
 
@@ -22,6 +22,16 @@ Theorem C08_worker_cancel_drops_backlog : forall p t,
   run_find (p_running p) t = None -> ~ in_backlog (cancel_task p t) t.
 Proof. exact cancel_drops_backlog. Qed.
 
+(** Tasks that were already terminal keep their outcome through a cancel (and through anything
+    that follows it). *)
+Theorem C08_terminal_tasks_keep_outcome : forall s o s' t v,
+  (forall j, In j (h_jobs (hq_of s)) -> j_id j < h_counter (hq_of s)) ->
+  (match o with JForget _ => False | _ => True end) ->
+  jstep s o = Ok s' -> task_state s t = Some v -> terminal v ->
+  task_state s' t = Some v \/ find_job (h_jobs (hq_of s')) (fst t) = None.
+Proof. exact jstep_outcome_final. Qed.
+
+Print Assumptions C08_terminal_tasks_keep_outcome.
 Print Assumptions C08_cancel_idempotent.
 Print Assumptions C08_only_active_tasks_canceled.
 Print Assumptions C08_worker_cancel_drops_backlog.
